@@ -211,6 +211,28 @@ def iter_next(ex, it):
             r = ex.call_closure(it.extra, [Ref(Cell(x, name="filter-item"))])
             if ex.choose([(True, r.t), (False, z3.Not(r.t))], "iter-filter"):
                 return x
+    if it.kind == "flat_map":
+        while True:
+            inner = it.pos if isinstance(it.pos, IterV) else None
+            if inner is not None:
+                x = iter_next(ex, inner)
+                if x is not None:
+                    return x
+                it.pos = 0
+            y = iter_next(ex, it.src)
+            if y is None:
+                return None
+            it.pos = into_iter(ex, ex.call_closure(it.extra, [y]))
+    if it.kind == "filter_map":
+        while True:
+            y = iter_next(ex, it.src)
+            if y is None:
+                return None
+            r = ex.call_closure(it.extra, [y])
+            if not (isinstance(r, Agg) and r.ty == "Option"):
+                raise Unsupported(f"filter_map closure returned {r}")
+            if r.variant == "Some":
+                return r.fields[0]
     if it.kind == "enumerate":
         x = iter_next(ex, it.src)
         if x is None:
@@ -265,12 +287,14 @@ def into_iter(ex, v):
         return IterV("vec_into", VecV([v.fields[i] for i in sorted(v.fields)]))
     if isinstance(v, Agg) and v.ty == "Option":
         return IterV("vec_into", VecV([v.fields[0]] if v.variant == "Some" else []))
+    if isinstance(v, Agg) and v.ty == "Result":
+        return IterV("vec_into", VecV([v.fields[0]] if v.variant == "Ok" else []))
     raise Unsupported(f"into_iter on {v}")
 
 
 def collect(ex, it, target):
     t = strip_generics(target).split("::")[-1]
-    if t == "BTreeMap":
+    if t in ("BTreeMap", "HashMap"):
         m = MapV([])
         while True:
             x = iter_next(ex, it)
@@ -391,6 +415,20 @@ def call(ex, callee, args):
     if base == "std::boxed::Box::pin":
         model("Box::pin = heap cell")
         return Agg("Pin", None, {0: mkbox(args[0], "boxed-future")})
+    if base == "std::boxed::Box::new_uninit":
+        model("Box::new_uninit / assume_init / slice::into_vec (the lowering of vec![..])")
+        return mkbox(Agg("MaybeUninit", None, {1: Agg("ManuallyDrop", None, {0: Agg("MaybeDangling", None, {0: UNINIT})})}), "uninit-box")
+    if base in ("std::boxed::Box::assume_init", "std::mem::MaybeUninit::assume_init", "std::boxed::Box::write"):
+        if base.endswith("write"):
+            ex.write_ref(unbox(ex, args[0]), args[1])
+        return args[0]
+    if re.match(r"(std|core|alloc)::slice::<impl \[.*\]>::into_vec", c) or base == "std::boxed::box_assume_init_into_vec_unsafe":
+        arr = ex.read_ref(unbox(ex, args[0]))
+        while isinstance(arr, Agg) and arr.ty in ("MaybeUninit", "ManuallyDrop", "MaybeDangling"):
+            arr = arr.fields[1] if arr.ty == "MaybeUninit" else arr.fields[0]
+        if isinstance(arr, Agg) and arr.ty == "array":
+            return VecV([arr.fields[i] for i in sorted(arr.fields)])
+        raise Unsupported(f"into_vec of {arr}")
     if base == "std::boxed::Box::new":
         model("Box::new = heap cell")
         return mkbox(args[0])
@@ -599,10 +637,12 @@ def call(ex, callee, args):
                 if ex.choose([(True, r.t), (False, z3.Not(r.t))], "iter-position"):
                     return some(IntV(i, "usize"))
                 i += 1
-        if meth in ("filter", "enumerate", "cloned", "copied", "take", "chain", "skip", "rev", "peekable", "fuse", "by_ref"):
+        if meth in ("filter", "flat_map", "filter_map", "enumerate", "cloned", "copied", "take", "chain", "skip", "rev", "peekable", "fuse", "by_ref"):
             model(f"Iterator::{meth} (adaptor)")
             if meth == "filter":
                 return IterV("filter", it, 0, args[1])
+            if meth in ("flat_map", "filter_map"):
+                return IterV(meth, it, 0, args[1])
             if meth == "enumerate":
                 return IterV("enumerate", it, 0)
             if meth in ("cloned", "copied"):
@@ -680,8 +720,8 @@ def call(ex, callee, args):
         return NotImplemented
 
     # ---- BTreeMap
-    if base.startswith("std::collections::BTreeMap::"):
-        if last in ("new",):
+    if base.startswith(("std::collections::BTreeMap::", "std::collections::HashMap::")):
+        if last in ("new", "with_capacity", "default"):
             model("BTreeMap::new")
             return MapV([])
         if last == "get":
@@ -757,6 +797,22 @@ def call(ex, callee, args):
             old = copy_val(ex.read_ref(r)) if lab == "hit" else None
             m.layers.append(("del", as_str(ex, args[1])))
             return some(old) if lab == "hit" else NONE()
+    if tt and tt[1].startswith("std::iter::Extend<") and tt[2] == "extend":
+        coll = deref_all(ex, args[0])
+        it = into_iter(ex, args[1])
+        model("Extend::extend: sequential insert / push")
+        if isinstance(args[0], Ref) and args[0].cell.ro:
+            raise Panic(f"WRITE-TO-SHARED-STATE: extend in read-only region {args[0].cell.name}")
+        while True:
+            x = iter_next(ex, it)
+            if x is None:
+                return Agg("tuple")
+            if isinstance(coll, MapV):
+                map_insert(ex, args[0], as_str(ex, x.fields[0]), x.fields[1])
+            elif isinstance(coll, VecV) and coll.items is not None:
+                coll.items.append(x)
+            else:
+                raise Unsupported(f"extend of {coll}")
     if base in ("std::mem::swap", "core::mem::swap"):
         model("mem::swap")
         a, b = ex.read_ref(args[0]), ex.read_ref(args[1])
